@@ -582,6 +582,7 @@ def validation_rules(ck, fb):
                 return True
         return False
     encoding_rule(ck, fb)
+    chunk_frame_rules(ck, fb)
     for callee in ("read_edges", "read_faces", "read_cells"):
         sites = [(b, i, n) for b, i, n in rt.nodes(("call",)) if n.get("pn", "").endswith("::" + callee)]
         ok = bool(sites) and all(exact(rcn, b, ["elem_size(", "handle_encoding"]) for b, i, n in sites)
@@ -596,7 +597,8 @@ def validation_rules(ck, fb):
 # =============================================================================================== S
 def stream_rules(ck, fb):
     ck.rule("S.sticky", "a failed read of the input stream stays failed: no reader code clears or overrides the stream state (clear/setstate/exceptions), so after a failure every later chunk decodes from zero bytes, the mandatory end-of-file chunk can no longer be seen and V.ok turns the failure into an error result")
-    ck.rule("S.write", "the OVMB writer reports WriteResult::Ok only under ostream.good() evaluated after the last write (no write between the test and the return)")
+    ck.rule("S.write", "the OVMB writer reports WriteResult::Ok only under ostream.good() evaluated after the last write (no write between the test and the return) and after a flush of the stream")
+    ck.rule("S.read", "every std::istream::read in reader code is followed, on every path to a normal return, by a branch on the state of that stream (a short read leaves the rest of the zero-initialised buffer looking like file content)")
     n = 0
     canary = False
     entries = reader_entries(fb)
@@ -614,6 +616,45 @@ def stream_rules(ck, fb):
                     canary = True
                     continue
                 ck.violate("S.sticky", f.loc(c), "%s resets the state of the input stream (%s)" % (f.pq.split("::")[-1], pn.split("::")[-1]), "S.sticky:%s" % f.pq)
+    nread = 0
+    for f in [fb.fns[i] for i in reach]:
+        if "/IO/" not in f.file:
+            continue
+        for b, i, c in f.nodes(("call",)):
+            pn = c.get("pn", "")
+            if not (pn.startswith("std::basic_istream") and pn.split("::")[-1] == "read") or b not in f.reach():
+                continue
+            nread += 1
+            sroot = estr(unwrap(f.resolve(c.get("r")))) if c.get("r") is not None else "?"
+            cnt = estr(unwrap(f.resolve(c["a"][1]))) if len(c.get("a", [])) > 1 else None
+            # blocks that branch on the stream state, or on "nothing was requested" (count == 0)
+            cut = set()
+            for bb in f.reach():
+                t = f.term(bb)
+                if not t or not t.get("cond") or not (bb == b or bb in f.reachable_from(b)):
+                    continue
+                cnd = f.resolve(t["cond"])
+                for y in walk(cnd):
+                    if isinstance(y, dict) and y.get("k") == "call" and y.get("pn", "").split("::")[-1] in STREAM_TESTS and ("basic_ios" in y.get("pn", "") or "basic_istream" in y.get("pn", "")) and sroot in estr(y):
+                        cut.add(bb)
+                sc = estr(cnd).replace(" ", "")
+                if cnt and sc in ("(%s!=0)" % cnt, "(%s==0)" % cnt, "(0!=%s)" % cnt, "(0==%s)" % cnt):
+                    cut.add(bb)
+            bad = []
+            seen_, work = set(), [b]
+            while work:
+                x_ = work.pop()
+                if x_ in seen_ or (x_ in cut and x_ != b):
+                    continue
+                seen_.add(x_)
+                if any(xx.get("k") == "ret" and (x_ != b or i2 > i) for b2, i2, xx in f.tops() if b2 == x_):
+                    bad.append(x_)
+                    continue
+                if x_ == b and b in cut:
+                    continue
+                work += [s2 for s2 in f.succ(x_) if s2 is not None]
+            (ck.ok if not bad else lambda r_, w, t: ck.violate(r_, w, t, "S.read:%s" % f.pq))("S.read", f.loc(c), "%s: the result of %s.read() is tested before the function returns normally" % (f.pq.split("::")[-1], sroot))
+    ck.floor("istream_read_sites", nread, 1)
     ck.ok("S.sticky", "OVMB reader call graph", "%d raw istream read/seek/tell sites in %d reader-reachable functions, none followed by a state reset anywhere in the reader" % (n, len(reach)))
     ck.canary("canary_s (reader code clearing the stream state)", canary)
     ck.floor("istream_raw_sites", n, 1)
@@ -658,6 +699,11 @@ def stream_rules(ck, fb):
                         calls = [n2 for bb, ii, n2 in f.nodes(("call",)) if bb in between and bb != b]
                         if not calls and not [n2 for bb, ii, n2 in f.nodes(("call",)) if bb == b]:
                             ok = True
+                        # ... and the stream was flushed before good() was evaluated (a buffered stream reports a failing device only then)
+                        flushed = any(n2.get("pn", "").split("::")[-1] == "flush" and n2.get("pn", "").startswith("std::basic_ostream") and (bb == B or f.dominates((bb, ii), (B, 0))) for bb, ii, n2 in f.nodes(("call",)))
+                        if ok and not flushed:
+                            ok = False
+                            ck.violate("S.write", f.loc(r), "%s evaluates ostream.good() without flushing the stream first: a failure of the device is not visible yet" % f.name, "S.write:%s:flush" % f.pq)
             (ck.ok if ok else lambda r_, w, t: ck.violate(r_, w, t, "S.write:%s" % f.pq))("S.write", f.loc(r), "%s: 'return %s' yields Ok only if ostream.good() holds at the return" % (f.name, estr(x)[:60]))
     ck.floor("writer_result_returns", nw, 1)
 
@@ -899,6 +945,38 @@ def range_rules(ck, fb):
                 why = "index bounded by header.span.count, the size established by read_n_ints (audited instance)"
             (ck.ok if ok else lambda r, w, t: ck.violate(r, w, t, "R.index:%s:%s" % (f.pq, name)))("R.index", f.loc(n), "%s: %s[%s] - %s" % (f.pq.split("::")[-1], name, estr(n["i"])[:30], why))
     ck.floor("reader_vector_index_sites", ni, 3)
+
+
+def chunk_frame_rules(ck, fb):
+    """framing clauses found through the round-4 C18 probes"""
+    from .canon import Canon, split_eq
+    ck.rule("V.eoflast", "internal_read_file reads a further chunk only while no end-of-file chunk has been seen: the EOF chunk is the last chunk of a file")
+    f = [x for x in fb.by_cls.get(BFR, []) if x.name == "internal_read_file" and x.has_cfg][0]
+    cn = Canon(f)
+    sites = [(b, i, x) for b, i, x in f.nodes(("call",)) if x.get("pn", "").endswith("BinaryFileReader::read_chunk") and b in f.reach()]
+    if not sites:
+        raise AnalysisBroken("internal_read_file no longer calls read_chunk")
+    for b, i, x in sites:
+        fs = {(s_, p_) for s_, p_, c_ in cn.facts(b)}
+        ok = ("reached_eof_chunk", False) in fs or any(s_.endswith("reached_eof_chunk") and p_ is False for s_, p_ in fs)
+        (ck.ok if ok else lambda r, w, t: ck.violate(r, w, t, "V.eoflast"))("V.eoflast", f.loc(x), "read_chunk() is called only under !reached_eof_chunk")
+    ck.rule("V.compression", "read_chunk interprets the payload of a chunk (dispatch on its type) only when the chunk header's compression byte is 0; a mandatory chunk with another value fails the read")
+    rk = [x for x in fb.by_cls.get(BFR, []) if x.name == "read_chunk" and x.has_cfg][0]
+    kcn = Canon(rk)
+    n = 0
+    for b, i, x in rk.nodes(("call",)):
+        nm = x.get("pn", "").split("::")[-1]
+        if nm not in ("read_topo_chunk", "read_prop_chunk", "read_propdir_chunk", "read_vertices_chunk") or b not in rk.reach():
+            continue
+        n += 1
+        ok = False
+        for s_, p_, c_ in kcn.facts(b):
+            r_ = split_eq(s_)
+            if r_ and "compression" in s_ and "0" in r_[1:]:
+                if (r_[0] == "!=" and p_ is False) or (r_[0] == "==" and p_ is True):
+                    ok = True
+        (ck.ok if ok else lambda r, w, t: ck.violate(r, w, t, "V.compression:%s" % nm))("V.compression", rk.loc(x), "%s is reached only for compression == 0" % nm)
+    ck.floor("chunk_dispatch_sites", n, 4)
 
 
 def encoding_rule(ck, fb):
